@@ -1,5 +1,6 @@
 import TeosVerif.Props.C07
 #print axioms Teos.C07.slots_formula
+#print axioms Teos.C07.formula_shape_is_modelled
 #print axioms Teos.C07.slotsOf_eq
 #print axioms Teos.C07.slotsOf_is_ceil
 #print axioms Teos.C07.at_least_one_slot
